@@ -13,7 +13,7 @@ from simkit import engine_world as W
 from simkit.core import EventLog, SutError, Violations, canon, sha, tree_digest
 from simkit.props.C07 import failed, run_engine, sut_violation
 
-RUN_CAP_S = 240
+RUN_CAP_S = 900
 
 
 # ---------------------------------------------------------------------------- plans
